@@ -29,6 +29,8 @@ def reader(kind, probe):
         rd = ['T', 'S', [['[', ['Str', 'k']]]]
     elif kind == 'S.u':
         rd = ['T', 'S', [['.', ['Str', 'u']]]]
+    elif kind == 'S.j':
+        rd = ['T', 'S', [['.', ['Str', 'j']]]]
     else:
         rd = ['T', 'S', [['.', ['Str', 'globals']], ['.', ['Str', 'k']]]]
     return ['And', [['Tuple', [['Coalesce', [rd], ['Lit', 'MISSING'], None, None, None], ['Fn', ['probe', probe]]]], NEUTRAL], None]
@@ -37,6 +39,11 @@ def reader(kind, probe):
 def binder(kind, marker):
     if kind == 'S(k=)':
         return ['Bind', [['k', ['Val', marker]]]]
+    if kind in ('S(k=,j=S.k)', 'Let(k=,j=S.k)'):
+        # the value spec of a later keyword reads the name an earlier keyword of the SAME step binds: it must see the
+        # enclosing k (all keywords are evaluated before any is bound)
+        sees = ['Coalesce', [['T', 'S', [['.', ['Str', 'k']]]]], ['Lit', 'MISSING'], None, None, None]
+        return ['Bind' if kind.startswith('S') else 'Let', [['k', ['Val', marker]], ['j', sees]]]
     if kind == 'A.k':
         return ['AssignScope', False, 'k']
     if kind == 'A.globals.k':
@@ -114,6 +121,8 @@ def corpus():
         # test_scope_vars style: (A.k, (Val(2), A.k), S.k) — inner binding does not leak
         {'target': t, 'spec': ['Tuple', [binder('S(k=)', 'outer'), ['Tuple', [binder('S(k=)', 'inner'), R('S.k', 1)]], R('S.k', 2)]], 'scope': [], 'repeat': True},
         {'target': t, 'spec': ['Dict', False, [[['Str', 'x'], binder('S(k=)', 'm')], [['Str', 'y'], R('S.k', 1)]]], 'scope': [], 'repeat': True},
+        {'target': t, 'spec': ['Tuple', [binder('S(k=)', 'outer'), binder('S(k=,j=S.k)', 'inner'), R('S.j', 1), R('S.k', 2)]], 'scope': [], 'repeat': True},
+        {'target': t, 'spec': ['Tuple', [binder('S(k=,j=S.k)', 'inner'), R('S.j', 1)]], 'scope': [], 'repeat': True},
         {'target': t, 'spec': ['Tuple', [binder('A.globals.k', None), ['Dict', False, [[['Str', 'y'], R('S.globals.k', 1)]]]]], 'scope': [], 'repeat': True},
         {'target': t, 'spec': ['Tuple', [R('S.globals.k', 1), binder('A.globals.k', None), R('S.globals.k', 2)]], 'scope': [], 'repeat': True},
         {'target': t, 'spec': ['Switch', [[binder('S(k=)', 'key'), R('S.k', 1)]], None], 'scope': [], 'repeat': True},
@@ -122,8 +131,8 @@ def corpus():
     ]
 
 
-BINDERS = ['S(k=)', 'S(k=)', 'A.k', 'A.globals.k', 'Let']
-READERS = ['S.k', 'S.k', "S['k']", 'S.globals.k', 'S.u']
+BINDERS = ['S(k=)', 'S(k=)', 'A.k', 'A.globals.k', 'Let', 'S(k=,j=S.k)', 'Let(k=,j=S.k)']
+READERS = ['S.k', 'S.k', "S['k']", 'S.globals.k', 'S.u', 'S.j', 'S.j']
 
 
 def generate(rng, tier):
